@@ -355,4 +355,48 @@ theorem cellToBoundary_closed_eq (id : Nat) (segs : Option Nat) :
             refine congrArg Outcome.ok ?_
             simp [List.reverse_append]
 
+/-! ### generic twin of the longitude unwrapping loops -/
+
+section twin
+variable {α : Type} [Add α] [Sub α] [Neg α] [LT α] [DecidableLT α]
+
+/-- `while lon - center < -180 { lon += 360 }` with explicit fuel, over any scalar type -/
+def unwrapUpG (c180 c360 : α) : Nat → α → α → Outcome α
+  | 0, _, _ => .panic .fuel
+  | fuel + 1, lon, center =>
+    if lon - center < -c180 then unwrapUpG c180 c360 fuel (lon + c360) center else .ok lon
+
+/-- both loops of `normalize_longitudes`, over any scalar type; same shape as `unwrapLon` -/
+def unwrapLonG (c180 c360 : α) : Nat → α → α → Outcome α
+  | 0, _, _ => .panic .fuel
+  | fuel + 1, lon, center =>
+    if lon - center > c180 then unwrapLonG c180 c360 fuel (lon - c360) center
+    else if lon - center < -c180 then unwrapUpG c180 c360 fuel (lon + c360) center
+    else .ok lon
+
+end twin
+
+theorem unwrapLonUp_eq_twin : ∀ (fuel : Nat) (lon center : Float),
+    unwrapLon.unwrapLonUp fuel lon center = unwrapUpG (180.0 : Float) 360.0 fuel lon center := by
+  intro fuel
+  induction fuel with
+  | zero => intro lon center; rfl
+  | succ n ih =>
+    intro lon center
+    unfold unwrapLon.unwrapLonUp unwrapUpG
+    rewrite [ih]
+    rfl
+
+/-- the Float model of the unwrapping loops IS the generic twin at `Float` with the literals 180 and 360 -/
+theorem unwrapLon_eq_twin : ∀ (fuel : Nat) (lon center : Float),
+    unwrapLon fuel lon center = unwrapLonG (180.0 : Float) 360.0 fuel lon center := by
+  intro fuel
+  induction fuel with
+  | zero => intro lon center; rfl
+  | succ n ih =>
+    intro lon center
+    unfold unwrapLon unwrapLonG
+    rewrite [ih, unwrapLonUp_eq_twin]
+    rfl
+
 end A5
